@@ -216,6 +216,7 @@ func c13run(r *kernel.Run, seed uint64) {
 			}
 			metaOrder = append(metaOrder, op.GetEntry().GetHash().String())
 			mi++
+			s.wait() // the store's own reaction to the write (head publication) runs before the next simulator action
 		} else {
 			op, err := w.gcs[gid].MessageStore().AddMessage(ctx, []byte(fmt.Sprintf("msg-%d", gi)))
 			if err != nil {
@@ -224,6 +225,7 @@ func c13run(r *kernel.Run, seed uint64) {
 			}
 			msgOrder = append(msgOrder, op.GetEntry().GetHash().String())
 			gi++
+			s.wait()
 		}
 		if plan != 1 && s.r.Choose(4) == 3 {
 			s.wait()
